@@ -55,7 +55,7 @@ def gen_defs(rng, n):
             types.append(name)
         elif kind == 'struct':
             name = rng.choice(['S%d', 'Header%d']) % i
-            members, uses = [], []
+            members, uses, first_uses = [], [], None
             for j in range(rng.randint(1, 3)):
                 t = rng.choice(types + sorted(PRIM)) if types else rng.choice(sorted(PRIM))
                 mname = rng.choice(['m%d' % j, t if (t in types and rng.random() < 0.3) else 'f%d' % j])
@@ -67,8 +67,11 @@ def gen_defs(rng, n):
                     uses.append(ref)
                     dim = '<dimension size="%s"/>' % ref
                 members.append('<member name="%s" type="%s">%s</member>' % (mname, t, dim))
+                if first_uses is None:
+                    first_uses = list(uses)
             if len(set(re.findall(r'member name="(\w+)"', ''.join(members)))) != len(members):
-                members = members[:1]
+                # duplicate member names: keep the first member only -- and only what *it* uses
+                members, uses = members[:1], first_uses
             defs.append((kind, name, '<struct name="%s">%s</struct>' % (name, ''.join(members)), uses))
             types.append(name)
         else:
